@@ -175,6 +175,31 @@ Proof.
     eapply same_TR_trans; eassumption.
 Qed.
 
+(* finish only rewrites waiter threads and logs; the resolver's own pc becomes RDone true and acc is emptied *)
+Lemma finish_shape s i k :
+  exists th' sb' wl' el',
+    finish s i k = set_thr (mkSt (owner s) (slot s) (payload s) (walk s) [] th' (winner s) sb' wl' el') i (TR k (RDone true)) /\
+    length th' = length (thrs s) /\
+    (forall j k0 pc0, nth_error th' j = Some (TR k0 pc0) <-> T s j = Some (TR k0 pc0)).
+Proof.
+  unfold finish.
+  set (s0 := if is_async k then _ else s).
+  assert (S0 : owner s0 = owner s /\ winner s0 = winner s /\ payload s0 = payload s /\ slot s0 = slot s /\
+               walk s0 = walk s /\ thrs s0 = thrs s).
+  { subst s0. destruct (is_async k); cbn [owner winner payload slot walk thrs]; repeat split. }
+  destruct S0 as (A1 & A2 & A3 & A4 & A5 & A6).
+  set (l := if is_async k then rot_last (acc s) else acc s).
+  pose proof (resume_all_frame l s0) as F. cbn zeta in F.
+  destruct F as (F1 & F2 & F3 & F4 & F5 & F6 & F7 & F8 & F9).
+  exists (thrs (resume_all s0 l)), (sublog (resume_all s0 l)), (wlog (resume_all s0 l)), (elog (resume_all s0 l)).
+  split; [|split].
+  - rewrite F1, F2, F3, F4, F5, A1, A2, A3, A4, A5. reflexivity.
+  - rewrite F9, A6. reflexivity.
+  - intros j k0 pc0. split; intros Q.
+    + apply F8 in Q. unfold T in *. rewrite A6 in Q. exact Q.
+    + apply F8. unfold T in *. rewrite A6. exact Q.
+Qed.
+
 (* ---------- Inv1 is preserved by every step ---------- *)
 Lemma enabled_T s i : enabled s i = true -> exists t, T s i = Some t.
 Proof. unfold enabled, T. destruct (nth_error (thrs s) i); [eauto|discriminate]. Qed.
@@ -188,7 +213,7 @@ Ltac tlook L :=
 (* a resolver thread i moves from pc to pc' and the global fields change as given *)
 Lemma inv1_resolver_step s i k pc pc' o' sl' p' w' a' wn' :
   Inv1 s -> T s i = Some (TR k pc) ->
-  let s' := set_thr (mkSt o' sl' p' w' a' (thrs s) wn' (sublog s) (wlog s)) i (TR k pc') in
+  let s' := set_thr (mkSt o' sl' p' w' a' (thrs s) wn' (sublog s) (wlog s) (elog s)) i (TR k pc') in
   (* claim succeeded *)
   ((owner s = true /\ o' = false /\ wn' = Some i /\ winning pc' = true /\ past_exchange pc' = false /\
     winning pc = false /\ p' = payload_of k (payload s) /\ sl' = slot s /\ w' = walk s /\ a' = acc s) \/
@@ -203,7 +228,7 @@ Lemma inv1_resolver_step s i k pc pc' o' sl' p' w' a' wn' :
   Inv1 s'.
 Proof.
   intros I H s' C. pose proof (T_some_lt _ _ _ H) as L.
-  assert (L' : (i < length (thrs (mkSt o' sl' p' w' a' (thrs s) wn' (sublog s) (wlog s))))%nat) by exact L.
+  assert (L' : (i < length (thrs (mkSt o' sl' p' w' a' (thrs s) wn' (sublog s) (wlog s) (elog s))))%nat) by exact L.
   assert (TS : forall j, T s' j = if Nat.eqb i j then Some (TR k pc') else T s j).
   { intros j. unfold s'. rewrite T_set_thr by exact L'. reflexivity. }
   destruct I as [I1 I2 I3 I4 I5 I6 I7].
@@ -269,11 +294,11 @@ Proof.
       inversion B; subst. apply CK. exact D.
 Qed.
 
-Lemma inv1_resolver_step_gen s i k pc pc' o' sl' p' w' a' wn' th' sb' wl' :
+Lemma inv1_resolver_step_gen s i k pc pc' o' sl' p' w' a' wn' th' sb' wl' el' :
   Inv1 s -> T s i = Some (TR k pc) ->
   length th' = length (thrs s) ->
   (forall j k0 pc0, nth_error th' j = Some (TR k0 pc0) <-> T s j = Some (TR k0 pc0)) ->
-  let s' := set_thr (mkSt o' sl' p' w' a' th' wn' sb' wl') i (TR k pc') in
+  let s' := set_thr (mkSt o' sl' p' w' a' th' wn' sb' wl' el') i (TR k pc') in
   ((owner s = true /\ o' = false /\ wn' = Some i /\ winning pc' = true /\ past_exchange pc' = false /\
     winning pc = false /\ p' = payload_of k (payload s) /\ sl' = slot s /\ w' = walk s /\ a' = acc s) \/
    (o' = owner s /\ wn' = winner s /\ p' = payload s /\ sl' = slot s /\ w' = walk s /\ a' = acc s /\
@@ -286,7 +311,7 @@ Lemma inv1_resolver_step_gen s i k pc pc' o' sl' p' w' a' wn' th' sb' wl' :
 Proof.
   intros I H LEN TH s' C.
   pose proof (inv1_resolver_step s i k pc pc' o' sl' p' w' a' wn' I H C) as IM. cbn zeta in IM.
-  set (sM := set_thr (mkSt o' sl' p' w' a' (thrs s) wn' (sublog s) (wlog s)) i (TR k pc')) in *.
+  set (sM := set_thr (mkSt o' sl' p' w' a' (thrs s) wn' (sublog s) (wlog s) (elog s)) i (TR k pc')) in *.
   pose proof (T_some_lt _ _ _ H) as L.
   eapply (inv1_frame sM s' IM); try reflexivity.
   - intros j k0 pc0. unfold s', sM.
@@ -295,9 +320,9 @@ Proof.
   - left. split; reflexivity.
 Qed.
 
-Lemma inv1_waiter_step s i k pc f k' pc' f' sl' sb' :
+Lemma inv1_waiter_step s i k pc f k' pc' f' sl' sb' el' :
   Inv1 s -> T s i = Some (TW k pc f) -> (sl' = SReady <-> slot s = SReady) ->
-  Inv1 (set_thr (mkSt (owner s) sl' (payload s) (walk s) (acc s) (thrs s) (winner s) sb' (wlog s)) i (TW k' pc' f')).
+  Inv1 (set_thr (mkSt (owner s) sl' (payload s) (walk s) (acc s) (thrs s) (winner s) sb' (wlog s) el') i (TW k' pc' f')).
 Proof.
   intros I H S. eapply (inv1_frame s _ I); try reflexivity.
   - exact S.
@@ -309,7 +334,7 @@ Proof.
 Qed.
 
 Lemma set_thr_same_fields s i t :
-  set_thr s i t = set_thr (mkSt (owner s) (slot s) (payload s) (walk s) (acc s) (thrs s) (winner s) (sublog s) (wlog s)) i t.
+  set_thr s i t = set_thr (mkSt (owner s) (slot s) (payload s) (walk s) (acc s) (thrs s) (winner s) (sublog s) (wlog s) (elog s)) i t.
 Proof. reflexivity. Qed.
 
 Ltac fin k := try reflexivity; try discriminate; try (destruct k; reflexivity); try (destruct k; discriminate); auto.
@@ -348,8 +373,9 @@ Proof.
         assert (j = i) by congruence. subst. rewrite Ht in B. inversion B; subst. exact D. }
       cbn [fst].
       destruct (match slot s with SChain l => l | SReady => [] end) as [|w0 l0] eqn:EL.
-      * unfold finish. cbn [acc]. rewrite KA. cbn [resume_all owner slot payload walk thrs winner sublog wlog].
-        eapply (inv1_resolver_step s i k RResolve); [exact I|exact Ht|]. right. right.
+      * match goal with |- Inv1 (finish ?x i k) => destruct (finish_shape x i k) as (th' & sb' & wl' & el' & FE & FL & FT); rewrite FE end.
+        cbn [owner slot payload walk winner thrs] in *.
+        eapply (inv1_resolver_step_gen s i k RResolve); [exact I|exact Ht|exact FL|exact FT|]. right. right.
         repeat apply conj; try reflexivity; try apply NR; auto.
       * eapply (inv1_resolver_step s i k RResolve); [exact I|exact Ht|]. right. right.
         repeat apply conj; try reflexivity; try apply NR; auto. intros Q. congruence.
@@ -357,27 +383,23 @@ Proof.
       assert (WI : winner s = Some i) by (eapply I2; [exact Ht|reflexivity]).
       assert (SR : slot s = SReady) by (apply I6; exists i, k, RWalk; auto).
       destruct (walk s) as [|w t] eqn:EW; cbn [fst].
-      * unfold finish.
-        pose proof (resume_all_frame (acc s) s) as F. cbn zeta in F.
-        destruct F as (F1 & F2 & F3 & F4 & F5 & F6 & F7 & F8 & F9).
-        eapply (inv1_resolver_step_gen s i k RWalk); [exact I|exact Ht|exact F9| |].
-        -- intros j k0 pc0. apply F8.
-        -- right. right. rewrite F1, F2, F3, F4, F5, EW.
-           repeat apply conj; try reflexivity; try exact SR; auto; try tauto.
-      * set (s0 := mkSt (owner s) (slot s) (payload s) t (acc s) (thrs s) (winner s) (sublog s) (wlog s)).
+      * destruct (finish_shape s i k) as (th' & sb' & wl' & el' & FE & FL & FT). rewrite FE.
+        eapply (inv1_resolver_step_gen s i k RWalk); [exact I|exact Ht|exact FL|exact FT|].
+        right. right. rewrite EW.
+        repeat apply conj; try reflexivity; try exact SR; auto; try tauto.
+      * set (s0 := mkSt (owner s) (slot s) (payload s) t (acc s) (thrs s) (winner s) (sublog s) (wlog s) (elog s)).
         pose proof (release_node_frame s0 w) as R. cbn zeta in R.
         destruct R as (R1 & R2 & R3 & R4 & R5 & R6 & R7 & R8).
         assert (S0 : same_TR s s0) by (apply same_TR_fields; reflexivity).
         destruct t as [|w2 t2].
-        -- unfold finish.
-           pose proof (resume_all_frame (acc (release_node s0 w)) (release_node s0 w)) as F. cbn zeta in F.
-           destruct F as (F1 & F2 & F3 & F4 & F5 & F6 & F7 & F8 & F9).
+        -- destruct (finish_shape (release_node s0 w) i k) as (th' & sb' & wl' & el' & FE & FL & FT). rewrite FE.
+           rewrite R1, R2, R3, R4, R5. cbn [owner slot payload walk winner s0].
            eapply (inv1_resolver_step_gen s i k RWalk); [exact I|exact Ht| | |].
-           ++ rewrite F9, R8. reflexivity.
+           ++ rewrite FL, R8. reflexivity.
            ++ intros j k0 pc0. split; intros Q.
-              ** apply S0, R7, F8. exact Q.
-              ** apply F8, R7, S0. exact Q.
-           ++ right. right. rewrite F1, F2, F3, F4, F5, R1, R2, R3, R4, R5.
+              ** apply S0, R7, FT. exact Q.
+              ** apply FT, R7, S0. exact Q.
+           ++ right. right.
               repeat apply conj; try reflexivity; try exact SR; auto; try tauto.
         -- eapply (inv1_frame s _ I); [exact R1|exact R2|exact R3|rewrite R4; reflexivity| |].
            ++ eapply same_TR_trans; eassumption.
@@ -395,7 +417,7 @@ Proof.
         -- rewrite set_thr_same_fields. eapply inv1_waiter_step; [exact I|exact Ht|rewrite SL; tauto].
       * rewrite set_thr_same_fields. eapply inv1_waiter_step; [exact I|exact Ht|rewrite SL; tauto].
     + unfold enabled in E. fold (T s i) in E. rewrite Ht in E. discriminate.
-    + rewrite set_thr_same_fields. eapply inv1_waiter_step; [exact I|exact Ht|tauto].
+    + eapply inv1_waiter_step; [exact I|exact Ht|tauto].
     + unfold enabled in E. fold (T s i) in E. rewrite Ht in E. discriminate.
 Qed.
 
@@ -441,8 +463,8 @@ Proof. pose proof (release_node_frame s w) as F. cbn zeta in F. tauto. Qed.
 Lemma finish_fields s i k :
   winner (finish s i k) = winner s /\ payload (finish s i k) = payload s /\ slot (finish s i k) = slot s.
 Proof.
-  unfold finish. cbn [set_thr winner payload slot].
-  pose proof (resume_all_frame (acc s) s) as F. cbn zeta in F. tauto.
+  destruct (finish_shape s i k) as (th' & sb' & wl' & el' & FE & _ & _). rewrite FE.
+  cbn [set_thr winner payload slot]. repeat split.
 Qed.
 
 Theorem result_stable ops s i :
@@ -463,7 +485,7 @@ Proof.
     + destruct (walk s) as [|w t].
       * match goal with |- context[finish ?x i k] => destruct (finish_fields x i k) as (A & B & C) end.
         cbn [fst]. rewrite A, B, C. cbn [winner payload slot]. tauto.
-      * set (s0 := mkSt (owner s) (slot s) (payload s) t (acc s) (thrs s) (winner s) (sublog s) (wlog s)).
+      * set (s0 := mkSt (owner s) (slot s) (payload s) t (acc s) (thrs s) (winner s) (sublog s) (wlog s) (elog s)).
         destruct (release_node_slot s0 w) as (R4 & R3 & R2).
         destruct t.
         -- match goal with |- context[finish ?x i k] => destruct (finish_fields x i k) as (A & B & C) end.
